@@ -282,7 +282,34 @@ def check(fx, rep, tier):
         for n, ps in F.walk(root):
             if n.get("k") == "Call" and (F.path_def(n["f"]) or "").endswith("::Ok") and T.term(n["args"][0], T.Env()) in (("lit", True), ("lit", "true")):
                 trues.append((n, ps))
-        rep.oblige(len(trues) == 1, "R03.2", "single-true", F.loc(ft["span"]), f"fork_to has {len(trues)} places answering `true` (one expected)")
+        flag_form = False
+        if not trues:
+            # `let can_fork = !at_visit_limit(target)?; if can_fork { mark_visited(target)?; } Ok(can_fork)`: the answer IS the
+            # negated limit test, and the fork is counted exactly when the answer is true
+            for n, ps in F.walk(root):
+                if not (n.get("k") == "Call" and (F.path_def(n["f"]) or "").endswith("::Ok") and not n.get("exp") and n["args"] and F.local_of(F.strip(n["args"][0])) is not None):
+                    continue
+                lid = F.local_of(F.strip(n["args"][0]))
+                if lid in mutated:
+                    continue
+                lt = T.term(n["args"][0], T.env_at(ps, n, mutated), mutated)
+                neg = False
+                while lt[0] == "un" and lt[1] == "Not":
+                    neg = not neg
+                    lt = lt[2]
+                is_limit = any(s_[0] == "call" and F.strip_generics(str(s_[1])).endswith("at_visit_limit") and s_[2] and s_[2][-1][0] == "local" and s_[2][-1][2] == target_name for s_ in T.subterms(lt)) and lt[0] == "call"
+                if not (neg and is_limit):
+                    continue
+                marks = []
+                for c, cps in F.calls(root):
+                    if (F.callee_def(c) or "").endswith("VisitedOpcodes::mark_visited") and c["args"] and T.term(c["args"][0], T.Env())[0] == "local" and T.term(c["args"][0], T.Env())[2] == target_name:
+                        conds = T.path_conditions(cps, c)
+                        under_flag = len(conds) == 1 and conds[0][1] is True and F.local_of(F.strip(conds[0][0])) == lid
+                        before = T._span_key(c["span"])[1] < T._span_key(n["span"])[1]
+                        marks.append(under_flag and before)
+                if len(marks) == 1 and marks[0]:
+                    flag_form = True
+        rep.oblige(len(trues) == 1 or flag_form, "R03.2", "single-true", F.loc(ft["span"]), f"fork_to has {len(trues)} places answering `true` (one expected)", sample={"rule": "R03.2", "form": "answer is the negated limit test, counted under it" if flag_form else "literal true"})
         for n, ps in trues:
             # in the else branch of at_visit_limit(target)
             on_not_limit = False
